@@ -84,7 +84,8 @@ MTAG = {'pseudo equilibrium': 'pseudo-equilibrium', 'shgo': 'shgo', 'differentia
 DEF_TOLT, DEF_TOLZ = 1e-3, 1e-5
 # largest relative activity mismatch the listed optimiser-quality entries cover (about 1.35 x the largest seen over
 # ~35 quick and 5 thorough runs: shgo binary 0.22, shgo >=3 chemicals 0.55, differential evolution >=3 chemicals 0.31)
-RESIDUAL_CAP = {('shgo', 'binary'): 0.40, ('shgo', 'multicomponent'): 0.75,
+RESIDUAL_CAP = {('shgo', 'binary'): 0.40,     # shgo with >= 3 chemicals: no cap — the relative mismatch of a trace chemical
+                                              # saturates near 1 (0.757 seen on the unchanged tree); its rate is bounded instead
                 ('differential evolution', 'multicomponent'): 0.45}
 
 REC = {'on': False}
@@ -127,7 +128,13 @@ def setup():
     tmo.settings.set_thermo(LTH)
     LLE = lmod.LLE
     if not getattr(LLE.solve_lle_liquid_mol, '_verif', False):
-        o_solve = LLE.solve_lle_liquid_mol
+        o_solve0 = LLE.solve_lle_liquid_mol
+        def o_solve(self, mol, T, lle_chemicals, single_loop):
+            try:
+                return o_solve0(self, mol, T, lle_chemicals, single_loop)
+            except ReferenceError:
+                # numba could not write its on-disk cache index (see `warm` below); the kernel is compiled by now
+                return o_solve0(self, mol, T, lle_chemicals, single_loop)
         def solve_lle_liquid_mol(self, mol, T, lle_chemicals, single_loop):
             if not REC['on']: return o_solve(self, mol, T, lle_chemicals, single_loop)
             REC['insolve'] += 1
@@ -169,17 +176,31 @@ def setup():
             return r
         SLE._solve_x = _solve_x
     # compile the numba kernels once, in the parent, so that forked workers inherit them
+    def warm(fn):
+        # numba adds a freshly compiled overload to the dispatcher BEFORE it writes its on-disk cache index; a stale index
+        # under <repo>/thermosteam/**/__pycache__ can make that write raise (ReferenceError: underlying object has
+        # vanished) although the kernel is compiled — the second attempt then finds it in memory
+        for attempt in range(4):
+            try:
+                return fn()
+            except ReferenceError:
+                if attempt == 3: raise
     for m in METHODS:
-        s = tmo.Stream(None, Water=10, Octane=5, Ethanol=1, thermo=LTH)
-        s.lle.method = m
-        s.lle(300.)
+        for flows in (dict(Water=10, Octane=5, Ethanol=1), dict(Water=10, Butanol=5)):
+            def one(m=m, flows=flows):
+                s = tmo.Stream(None, thermo=LTH, **flows)
+                s.lle.method = m
+                s.lle(300.)
+            warm(one)
     g = LTH.Gamma([LTH.chemicals.Water, LTH.chemicals.Octane])
     try:
         lmod.psuedo_equilibrium_inner_loop.py_func(np.zeros(4) + 1., np.array([.5, .5]), 300., 2, g.f, g.args, 0.5)
     except Exception:
         pass
-    m = tmo.MultiStream(None, l=[('Water', 10), ('Phenol', 2)], phases=('s', 'l'), thermo=STH[0])
-    m.sle('Phenol', T=290.)
+    def one_sle():
+        m = tmo.MultiStream(None, l=[('Water', 10), ('Phenol', 2)], phases=('s', 'l'), thermo=STH[0])
+        m.sle('Phenol', T=290.)
+    warm(one_sle)
 
 
 def budget(tier):
@@ -791,6 +812,7 @@ def run_sle(case, model_in, outs, failures, tags):
     tags.append('sle:' + ('dortmund' if th == 0 else 'ideal'))
     partial = False
     pure_seen = False
+    last_computed = None   # (solute, chemicals present), other liquid flows at the last computed-solubility call
     prev_kind = None
     for k in range(1, len(ops)):
         t = ops[k]; kv = kvs(t[2:])
@@ -880,6 +902,11 @@ def run_sle(case, model_in, outs, failures, tags):
         op_index = len(model_in) - 1
         prev_kind = kind
         tags.append('sle-branch:' + ('pure' if is_pure else 'solubility'))
+        if given is None and not is_pure and last_computed is not None and last_computed[0] == (solute, tuple(nzs)) \
+                and last_computed[1] != tuple(np.delete(l0, si)):
+            tags.append('sle:computed-again-on-the-same-chemicals-after-a-solvent-edit'
+                        + (':partly-dissolved' if 0 < l1[si] < present else ''))
+        if given is None and not is_pure: last_computed = ((solute, tuple(nzs)), tuple(np.delete(l0, si)))
         # --- oracle
         others = [i for i in range(len(l0)) if i != si]
         if any(l1[i] != l0[i] or s1[i] != s0[i] for i in others):
@@ -1116,31 +1143,48 @@ def gen_sle(rng):
     ftok = lambda d: ','.join(f'{i}:{v!r}' for i, v in sorted(d.items())) or '-'
     ops = [f'sle new thermo={th} liq={ftok(liq)} sol={ftok(sol)}']
     ncall = rng.choice([1, 1, 2, 3, 4])
-    Tm = None
+    def Tm_of(name):
+        return STH[0].chemicals[name].Tm
     for c in range(ncall):
+        keep = False         # this call continues the previous one: same solute, solubility computed again
         if c > 0:
-            r = rng.random()
-            if r < 0.25:
-                x = rng.choice(SOLVENTS); ops.append(f'sle set liq={ix(x)}:{rflow(rng)!r}')
-            elif r < 0.35 and solv:
-                ops.append(f'sle set liq={ix(rng.choice(solv))}:0.0')
-            elif r < 0.42:
-                ops.append('sle resetcache')
-            if rng.random() < 0.25:
-                ops.append(rng.choice(['sle phases set=gls', 'sle phases set=sLl', 'sle phases set=ls', 'sle phases set=gLls',
-                                       'sle touch kind=vle', 'sle touch kind=lle', 'sle touch kind=sle']))
-            if rng.random() < 0.22:
-                # another solute joins the stream (as a solid or dissolved) and may become the one asked for
-                o2 = rng.choice([x for x in SOLUTES if x != solute])
-                which = 'sol' if rng.random() < 0.6 else 'liq'
-                ops.append(f'sle set {which}={ix(o2)}:{rflow(rng)!r}')
-                (sol if which == 'sol' else liq)[ix(o2)] = 1.
-            if rng.random() < 0.3:
-                others = [SNAMES[i] for i in list(liq) + list(sol) if SNAMES[i] in SOLUTES]
-                if others: solute = rng.choice(others)
-        T = round(rng.uniform(250, 450), 2)
+            present_solv = [x for x in SOLVENTS if liq.get(ix(x), 0) > 0]
+            sc = rng.random()
+            if sc < 0.30 and present_solv:
+                # the amount of a solvent that is already there is edited (less or more of it), nothing else changes:
+                # the set of chemicals stays the one the solver was set up for
+                x = rng.choice(present_solv)
+                liq[ix(x)] = round(liq[ix(x)] * rng.choice([0.1, 0.25, 0.5, 2, 4]), 4)
+                ops.append(f'sle set liq={ix(x)}:{liq[ix(x)]!r}')
+                keep = True
+            else:
+                r = rng.random()
+                if r < 0.25:
+                    x = rng.choice(SOLVENTS); liq[ix(x)] = rflow(rng); ops.append(f'sle set liq={ix(x)}:{liq[ix(x)]!r}')
+                elif r < 0.35 and present_solv:
+                    x = rng.choice(present_solv); liq[ix(x)] = 0.0; ops.append(f'sle set liq={ix(x)}:0.0')
+                elif r < 0.42:
+                    ops.append('sle resetcache')
+                if rng.random() < 0.25:
+                    ops.append(rng.choice(['sle phases set=gls', 'sle phases set=sLl', 'sle phases set=ls', 'sle phases set=gLls',
+                                           'sle touch kind=vle', 'sle touch kind=lle', 'sle touch kind=sle']))
+                if rng.random() < 0.22:
+                    # another solute joins the stream (as a solid or dissolved) and may become the one asked for
+                    o2 = rng.choice([x for x in SOLUTES if x != solute])
+                    which = 'sol' if rng.random() < 0.6 else 'liq'
+                    ops.append(f'sle set {which}={ix(o2)}:{rflow(rng)!r}')
+                    (sol if which == 'sol' else liq)[ix(o2)] = 1.
+                if rng.random() < 0.3:
+                    others = [SNAMES[i] for i in list(liq) + list(sol) if SNAMES[i] in SOLUTES]
+                    if others: solute = rng.choice(others)
+        # half of the calls below the melting point of the solute (where only part of it dissolves)
+        if keep or rng.random() < 0.5:
+            tm = Tm_of(solute)
+            T = round(rng.uniform(max(250., tm - 90.), max(252., min(450., tm - 2.))), 2)
+        else:
+            T = round(rng.uniform(250, 450), 2)
         r = rng.random()
-        if r < 0.55: given = '-'
+        if r < (0.8 if keep else 0.55): given = '-'
         else: given = repr(rng.choice([1e-4, 1e-3, 0.01, 0.05, 0.0833, 0.2, 0.5, 0.9, 0.999, 1.0, 1.5, -0.1, 0.0]))
         ops.append(f'sle call solute={solute} T={T!r} given={given}')
     return Case(ops, {'kind': 'sle'})
@@ -1198,6 +1242,11 @@ def corpus():
         # a pure-solute call, then a second solute joins and is asked for (the pure-solute mode must be left)
         Case(['sle new thermo=0 liq=7:4.0 sol=-', 'sle call solute=BenzoicAcid T=320.0 given=-', 'sle set sol=4:2.5',
               'sle call solute=Tetradecanol T=290.0 given=-', 'sle set liq=1:6.0', 'sle call solute=BenzoicAcid T=340.0 given=-'],
+             {'kind': 'sle'}),
+        # less solvent between two computed-solubility calls on the same chemicals (the bound is judged on the stream as it
+        # is after the call)
+        Case(['sle new thermo=0 liq=1:12.0,5:9.0 sol=-', 'sle call solute=Naphthalene T=300.0 given=-', 'sle set liq=1:3.0',
+              'sle call solute=Naphthalene T=310.0 given=-', 'sle set liq=1:24.0', 'sle call solute=Naphthalene T=295.0 given=-'],
              {'kind': 'sle'}),
         # SLE: docstring cases
         Case(['sle new thermo=0 liq=2:10.0,4:30.0 sol=-', 'sle call solute=Tetradecanol T=300.0 given=-',
